@@ -406,7 +406,7 @@ theorem keysS_sub (store : List Sub) (f : Bytes) (q cb : Nat) (hd : dollar f = f
         · simp [hs]
     · exact Or.inr h
 
-/-- a triple the hypotheses of the refinement admit: filter without empty / `$`-led levels, valid,
+/-- a triple the hypotheses of the refinement admit: filter without empty levels, not beginning with `$`, valid,
 return code 0, 1, 2 or 0x80 -/
 def okTriple (tc : (Bytes × Nat) × Nat) : Prop := good tc.1.1 = true ∧ validFilter tc.1.1 = true ∧ okCode tc.2 = true
 
@@ -656,7 +656,7 @@ theorem unsubs_sim (rel : Queue) : ∀ (srel : List SReq) (c : C) (store : List 
 
 /-! ### the simulation relation and the admitted events -/
 
-/-- an inbound message the refinement admits: valid topic name without empty / `$`-led levels, QoS <= 2 -/
+/-- an inbound message the refinement admits: valid topic name without empty levels, not beginning with `$`, QoS <= 2 -/
 def okPub (pb : Pub) : Prop := good pb.topic = true ∧ validName pb.topic = true ∧ pb.qos ≤ 2
 
 /-- what the admitted API calls have put into the specification's queues -/
@@ -683,7 +683,7 @@ theorem R_init : R init {} :=
 
 /-- the events the refinement theorem admits, decided on the *specification's* state: exactly the
 recorded exclusions (E5 early acknowledgement; a second ping while one is outstanding; E9 a callback held
-under two filters matching the delivered topic; B3/B4 `good`; caller-supplied non-zero identifiers) and
+under two filters matching the delivered topic; B3 `good`; caller-supplied non-zero identifiers) and
 the peer keeping to the protocol where the property is silent (valid topic names and QoS in inbound
 PUBLISHes, SUBACK return codes 0/1/2/0x80, no PUBREC after the PUBCOMP of the same exchange, subscribed
 filters valid and pairwise different within a request). -/
